@@ -23,6 +23,9 @@ impl SessionS {
     pub uninterp spec fn step_set_session_stop_reason(self, reason: SessionStopReason) -> (SessionS, ());
     #[verifier::external_body]
     pub fn set_session_stop_reason(&mut self, reason: SessionStopReason) ensures (*final(self), ()) == old(self).step_set_session_stop_reason(reason) { unimplemented!() }
+    pub uninterp spec fn step_abandon_pending_deliveries(self) -> (SessionS, ());
+    #[verifier::external_body]
+    pub fn abandon_pending_deliveries(&mut self) ensures (*final(self), ()) == old(self).step_abandon_pending_deliveries() { unimplemented!() }
     pub uninterp spec fn get_session_stop_reason(self) -> StopArc;
     #[verifier::external_body]
     pub fn session_stop_reason(&self) -> (r: &StopArc) ensures *r == self.get_session_stop_reason() { unimplemented!() }
@@ -85,6 +88,12 @@ impl ListenerSession {
 //@@ spec
     ensures
         (final(self).session, ()) == old(self).session.step_set_session_stop_reason(reason),     // [C14.listener.stop-reason-published-in-the-sessions-cell] the stop reason is recorded in the cell of the wrapped session -- the one its handles and links read
+        final(self).link_listener == old(self).link_listener && final(self).pending_link_flows == old(self).pending_link_flows,
+//@@ end
+//@@ fn file=fe2o3-amqp/src/acceptor/session.rs impl=`impl endpoint::Session for ListenerSession` name=abandon_pending_deliveries
+//@@ spec
+    ensures
+        (final(self).session, ()) == old(self).session.step_abandon_pending_deliveries(),     // [C14.listener.waiters-released-by-the-session] when the engine stops, the sends still waiting on links of the wrapped session are released by it (unit SESSION [C14.session-stop.every-sending-relay-reached])
         final(self).link_listener == old(self).link_listener && final(self).pending_link_flows == old(self).pending_link_flows,
 //@@ end
 //@@ fn file=fe2o3-amqp/src/acceptor/session.rs impl=`impl endpoint::Session for ListenerSession` name=session_stop_reason
